@@ -20,8 +20,8 @@ class MessageHead(packet.Packet):
         msgcls = self.guess_payload_class(b'')
         if msgcls is self.default_payload_class(b''):
             # an unknown message type has no framing to wait for,
-            # it is passed on as it is to be rejected
-            pass
+            # its header alone is passed on to be rejected
+            self.remove_payload()
         elif not self.payload:
             if msgcls.fields_desc:
                 raise formats.VerifyError('Message without payload')
